@@ -348,6 +348,11 @@ class Check:
     def finish(self) -> int:
         known = load_known(self.pid)
         ev_dir = os.path.join(VERIF_ROOT, "evidence")
+        if os.environ.get("VERIF_NOEVIDENCE"):
+            # mutant / self-test runs must not touch the committed evidence
+            ev_dir = os.path.join(
+                os.environ.get("TMPDIR", "/tmp"),
+                f"verif-scratch-evidence-{os.getpid()}")
         rp_dir = os.path.join(ev_dir, "replay")
         os.makedirs(rp_dir, exist_ok=True)
         # remove stale replay files of this property
